@@ -257,7 +257,20 @@ def h_tree(sx, cfg):
     env = Env(sx, df, mesh, n, nv, cfg.get("labels", "default"))
     tree = _totuple(cfg["tree"])
     thunk, orc, vo, isf = build(env, tree)
-    expected = {idx: orc(idx) for idx in env.cells}
+    try:
+        expected = {idx: orc(idx) for idx in env.cells}
+    except ValueError as ex:
+        if str(ex) != "incompatible":
+            raise
+        # component counts that do not broadcast: the library has to refuse the expression
+        try:
+            thunk()
+        except (ValueError, TypeError):
+            sx.check("incompatible-component-counts-refused", True)
+        else:
+            sx.check("incompatible-component-counts-refused", False)
+        _check_operands_untouched(sx, env)
+        return
     for t in env.nonzero:
         sx.assume(sx.ne(t, 0))
     try:
@@ -347,7 +360,7 @@ def h_commute(sx, cfg):
     vd = CUSTOM[nv] if cfg.get("labels") == "custom" else None
     mapping = None
     if cfg.get("mapping") == "permuted" and nv == nd and nv > 1:
-        names = vd or ["x", "y", "z"][:nv]
+        names = vd or (["x", "y", "z"][:nv] if nv <= 3 else [f"v{i}" for i in range(nv)])
         mapping = dict(zip(names, list(dims[1:]) + [dims[0]]))
     a, _, _, _ = env.field("f", nv, vd=vd, mapping=mapping)
     kind = cfg["other"]
